@@ -107,8 +107,11 @@ def strategy(tier):
             return [k, "seed", draw(seed)]
         if w < 76:
             return [k, "reset"]
-        if w < 87:
+        if w < 85:
             return [k, "save", draw(st.integers(0, 2))]
+        if w < 89:
+            # go back to a saved state and take a new checkpoint at once (no draw in between)
+            return [k, "rs", draw(st.integers(0, 2)), draw(st.integers(0, 2))]
         return [k, "restore", draw(st.integers(0, 2)), draw(replay)]
 
     op = op()
@@ -200,6 +203,18 @@ def _expand(case):
         elif name == "save":
             emit(s, "save", op[2])
             slots[s][op[2]] = (len(per_stream[s]), cur[s])
+        elif name == "rs":
+            if not slots[s]:
+                notes.add("restore-dropped")
+                continue
+            keys = sorted(slots[s])
+            slot = op[2] if op[2] in slots[s] else keys[op[2] % len(keys)]
+            if slots[s][slot][1] != cur[s]:
+                continue                                   # (across a set_seed: ambiguous, see 'amb')
+            emit(s, "restore", slot)
+            emit(s, "save", op[3])
+            slots[s][op[3]] = (len(per_stream[s]), cur[s])
+            notes.add("checkpoint-right-after-restore")
         elif name == "restore":
             if not slots[s]:
                 notes.add("restore-dropped")
